@@ -231,24 +231,29 @@ def build(tier="quick", seed=0):
                     cm2.__exit__(None, None, None)
                     inner_after = set(base.g["IGNORE_FIELDS_FOR_COMPARISON"])
                 if body_raises:
-                    raise PyRaise(ValueError("body fails"))
+                    raise PyRaise({True: ValueError, "KeyboardInterrupt": KeyboardInterrupt, "GeneratorExit": GeneratorExit, "SystemExit": SystemExit}[body_raises]("body fails"))
             except PyRaise as e:
                 raised = True
-                cm.__exit__(ValueError, e.exc, None)
+                try:
+                    cm.__exit__(type(e.exc), e.exc, None)
+                except PyRaise:
+                    pass  # (the exception leaves the with-statement)
             else:
                 cm.__exit__(None, None, None)
             return before_val, inside, inner_after, set(base.g["IGNORE_FIELDS_FOR_COMPARISON"]), raised
 
         def judge(p):
             before_val, inside, inner_after, after, raised = p.value
-            ok = after == before_val and inside == {"n"} and (inner_after == {"n"} if nested else True) and raised == body_raises
+            ok = after == before_val and inside == {"n"} and (inner_after == {"n"} if nested else True) and raised == bool(body_raises)
             return ok, f"configuration before {sorted(before_val)}, inside the scope {sorted(inside or [])}, after the inner scope {sorted(inner_after) if inner_after is not None else '-'}, after the scope {sorted(after)}"
 
         pack.add(Obligation(name, lambda tier: prove_paths(name, with_clean_config(th), judge, lambda m, p: {}), replay=lambda w: {"call": "c12_scope", "args": {"prior": list(prior), "body_raises": body_raises, "nested": nested}}, functions=FU[-3:-1]))
 
     for prior in ((), ("x",), ("x", "n")):
-        for body_raises in (False, True):
+        for body_raises in (False, True, "KeyboardInterrupt", "GeneratorExit", "SystemExit"):
             for nested in (False, True):
+                if isinstance(body_raises, str) and (nested or prior == ("x", "n")):
+                    continue
                 scope_ob(f"C12.scope[prior={list(prior)},raises={body_raises},nested={nested}]", prior, body_raises, nested)
 
     # ---- canary, conformance, bounded
